@@ -113,11 +113,11 @@ func TestC07Random(t *testing.T) {
 		switch rapid.SampledFrom([]int{0, 0, 0, 1, 1, 1, 2, 3, 4}).Draw(t, "k") {
 		case 0:
 			id := rapid.SampledFrom(ids).Draw(t, "n")
-			return model.Op{K: "regnode", N: id, NT: typeOf[id], Pol: rapid.IntRange(0, 3).Draw(t, "pol"), Reuse: rapid.IntRange(0, 3).Draw(t, "reuse") == 0,
+			return model.Op{K: "regnode", N: id, NT: typeOf[id], Pol: rapid.IntRange(0, 3).Draw(t, "pol"), Dress: rapid.SampledFrom([]int{0, 0, 1, 2, 3}).Draw(t, "dress"), Reuse: rapid.IntRange(0, 3).Draw(t, "reuse") == 0,
 				Shape: rapid.SampledFrom([]int{0, 0, 1, 2, 3}).Draw(t, "shape")}
 		case 1:
 			return model.Op{K: "regpipe", ET: rapid.SampledFrom(ets).Draw(t, "et"), P: rapid.SampledFrom([]string{"p", "q"}).Draw(t, "p"),
-				IDs: []string{rapid.SampledFrom([]string{"n", "m"}).Draw(t, "f"), "s"}, Pol: rapid.IntRange(0, 3).Draw(t, "ppol")}
+				IDs: []string{rapid.SampledFrom([]string{"n", "m"}).Draw(t, "f"), "s"}, Pol: rapid.IntRange(0, 3).Draw(t, "ppol"), Dress: rapid.SampledFrom([]int{0, 0, 1, 2, 3}).Draw(t, "pdress")}
 		case 2:
 			return model.Op{K: "rmpipe", ET: rapid.SampledFrom(ets).Draw(t, "et"), P: rapid.SampledFrom([]string{"p", "q"}).Draw(t, "p")}
 		case 3:
